@@ -33,7 +33,7 @@ def REQUIRED(tier):
 
 def _required(tier):
     return ["files_cleaned", "hook:apply_mask", "hook:apply_method", "hook:apply_funcn", "mask_union_checks", "vectors:mad", "vectors:iqrm", "vector:all_equal", "vector:planted_outlier",
-            "file_samples_compared", "regime:multi_block", "roundtrip_checks", "freq:empty_list", "freq:outside_band", "freq:overlapping", "freq:limit_on_centre", "algebra_histories", "regime:subrange_cleaned", "regime:negative_float_samples", "regime:float_mask_value_outside_0_255", "custom_function_input_checks", "regime:cleaning_after_a_refused_call", "regime:integer_valued_custom_mask"]
+            "file_samples_compared", "regime:multi_block", "roundtrip_checks", "freq:empty_list", "freq:outside_band", "freq:overlapping", "freq:limit_on_centre", "algebra_histories", "regime:subrange_cleaned", "regime:negative_float_samples", "regime:float_mask_value_outside_0_255", "custom_function_input_checks", "regime:cleaning_after_a_refused_call", "regime:integer_valued_custom_mask", "band:ascending", "second_cleaning_on_same_reader"]
 
 
 def cases(tier, seed):
@@ -186,9 +186,14 @@ def _file(case, ctx):
     d = os.path.join(ctx.tmp, f"f{case['seed']}")
     os.makedirs(d, exist_ok=True)
     foff = -float(rng.choice([1.0, 0.5, 4.0]))
+    fch1 = 1500.0
+    if case["seed"] % 4 == 2:     # an ascending frequency axis (legal, rarer): channel 0 is the bottom of the band
+        foff = -foff
+        fch1 = 1500.0 - nch * foff
+        ctx.count("band:ascending")
     nfiles = int(rng.choice([1, 1, 2]))
     split = [N] if nfiles == 1 else [N // 2, N - N // 2]
-    paths = sigfile.write_split(d, X, nbits, split, fch1=1500.0, foff=foff, tsamp=1e-3)
+    paths = sigfile.write_split(d, X, nbits, split, fch1=fch1, foff=foff, tsamp=1e-3)
     fil = FilReader(paths if nfiles > 1 else paths[0])
     method = str(rng.choice(["mad", "iqrm"]))
     thr = float(rng.choice([3.0, 2.0, 5.0, float(rng.uniform(1, 6))]))
@@ -343,6 +348,19 @@ def _file(case, ctx):
                 if abs(v0 - med) > (1.0 if nbits != 32 else 0.0) + 1e-4 * max(1.0, abs(med)):
                     ctx.violation("default-mask-value", f"default mask value {v0} is not within one level of the median of unmasked channel means {med}", one)
                     return
+    # ---- a second cleaning on the same reader (other options, default mask value) must give what a fresh reader gives
+    if case["seed"] % 3 == 0 and keep.any():
+        ctx.count("second_cleaning_on_same_reader")
+        try:
+            with np.errstate(all="ignore"):
+                n2, m2 = fil.clean_rfi(method=method, threshold=thr, outfile_name=os.path.join(d, "again.fil"), gulp=gulp, start=start, nsamps=nsel, quiet=True, description="v")
+                n3, m3 = FilReader(paths if nfiles > 1 else paths[0]).clean_rfi(method=method, threshold=thr, outfile_name=os.path.join(d, "fresh.fil"), gulp=gulp, start=start, nsamps=nsel, quiet=True, description="v")
+            if not np.array_equal(np.array(m2.chan_mask, dtype=bool), np.array(m3.chan_mask, dtype=bool)) or open(n2, "rb").read() != open(n3, "rb").read():
+                ctx.violation("cleaning-depends-on-reader-history", "clean_rfi on a reader that has cleaned before (other mask, explicit value) writes a different file / mask than the same call on a fresh reader", one)
+                return
+        except Exception as exc:  # noqa: BLE001
+            ctx.violation(f"clean_rfi-raised:second-call:{type(exc).__name__}@{exc_site(exc)}", fmt_exc(exc), one)
+            return
     if cm.any() and keep.any():
         ctx.nontrivial_case(one)
     if ctx.evaluations % 10 == 1:
